@@ -73,6 +73,12 @@ M = [
   "self.answers.len() as u16,\n            self.name_servers.len() as u16,", "self.name_servers.len() as u16,\n            self.answers.len() as u16,", 'fail:header_counts_line_up'),
  ("mdns refresh at ttl / 10 * 9", 'simple-mdns/src/resource_record_manager.rs', 'ttl / 10 * 8', 'ttl / 10 * 9', 'fail:refresh_offset'),
  ("mdns short ttl below 120", 'simple-mdns/src/resource_record_manager.rs', 'ttl if ttl < 60', 'ttl if ttl < 120', 'fail:refresh_offset'),
+ ("sync responder returns the send error", 'simple-mdns/src/sync_discovery/simple_responder.rs',
+  "if let Err(err) = sender_socket.send_to(&reply, reply_addr) {\n                                log::error!(\"Failed to send reply {err}\");\n                            }",
+  "sender_socket.send_to(&reply, reply_addr)?;", 'fail:responder_send_policy'),
+ ("tokio responder ignores the send result", 'simple-mdns/src/async_discovery/simple_responder.rs',
+  "if let Err(err) = sender_socket.send_to(&reply, reply_addr).await {\n                                log::error!(\"Failed to send reply {err}\");\n                            }",
+  "let _ = sender_socket.send_to(&reply, reply_addr).await;", 'untied:mdns.responder_send:tokio'),
  ("mdns refresh in millis", 'simple-mdns/src/resource_record_manager.rs', 'added + Duration::from_secs(ttl / 2)', 'added + Duration::from_millis(ttl / 2)', 'untied:mdns.expiration'),
 ]
 
